@@ -68,4 +68,136 @@ theorem k_matrixSetRow_eq (m : WMat) (y : Nat) (row : WArr) :
         show List.map Int.ofNat row.words = words row.words from rfl, copyL_words]
     simp [words]
 
+when_kernel Gzx.Gen.K16b.matrixFlipAll in
+/-- `BitMatrix.FlipAll()` = `WMat.flipAll` on a matrix satisfying the representation invariant (words below 2^32,
+    `len(bits) = rowSize*height`, `rowSize ≥ 1`), for every fuel above `height`: every word complemented in 32 bits, then —
+    when `width%32 ≠ 0` — the last word of every row (`i = rowSize-1; i < len; i += rowSize`) masked with `1<<shift - 1` -/
+theorem k_matrixFlipAll_eq (m : WMat) (h : InvM m) (fuel : Nat) (hfuel : m.height < fuel) :
+    Gen.K16b.matrixFlipAll fuel m.width m.rowSize (words m.words) = expW (WMat.flipAll m) := by
+  obtain ⟨hw1, _, hrs, hlen, h32, _⟩ := h
+  have hrs1 : 1 ≤ m.rowSize := by omega
+  simp only [Gen.K16b.matrixFlipAll, WMat.flipAll, expW]
+  rw [loop_up_fold' words (fun ws i => updWord ws i (fun w => (wrap 32 (inot (w : Int))).toNat)) 0 m.words.length m.words rfl
+        (by rw [tripUp_one]; gonorm; omega) (by omega), foldlM_updWord_all,
+      show m.words.map (fun (w : Nat) => (wrap 32 (inot (w : Int))).toNat) = m.words.map not32 from
+        List.map_congr_left (fun w hw => by rw [not32_natCast w (h32 w hw), Int.toNat_natCast])]
+  · simp only [ofRes_thenR, Except.map]
+    have hsh : wrap 64 (Int.tmod (m.width : Int) 32) = ((m.width % 32 : Nat) : Int) := by gonorm; omega
+    rw [hsh]
+    by_cases hs : m.width % 32 = 0
+    · simp [hs]
+    · have hne : (((m.width % 32 : Nat) : Int) != 0) = true := by simp; omega
+      simp only [hne, if_true, hs, ne_eq, not_false_eq_true]
+      have hmask : wrap 32 (wrap 32 (ishl 1 ((m.width % 32 : Nat) : Int)) - 1) = ((1 <<< (m.width % 32) - 1 : Nat) : Int) := by
+        rw [bit_natCast _ (m.width % 32) rfl (by omega)]
+        have hp : 1 ≤ 1 <<< (m.width % 32) := by rw [Nat.one_shiftLeft]; exact Nat.one_le_two_pow
+        have hlt := one_shl_lt (m.width % 32) (by omega)
+        unfold W32 at hlt
+        have e1 : ((1 <<< (m.width % 32) : Nat) : Int) - (1 : Int) = ((1 <<< (m.width % 32) - 1 : Nat) : Int) := by omega
+        rw [e1]
+        exact wrap_of_lt _ _ (by omega) (by omega)
+      generalize hF : (fun (ws : List Nat) (y : Nat) =>
+          updWord ws (y * m.rowSize + (m.rowSize - 1)) (fun w => w &&& (1 <<< (m.width % 32) - 1))) = F
+      rw [hmask, show (m.rowSize : Int) - 1 = ((m.rowSize - 1 + 0 * m.rowSize : Nat) : Int) by omega, len_words,
+        whileLoop_stride words F
+          (m.rowSize - 1) m.rowSize (m.words.map not32).length _ ?_ ?_ m.height 0 (m.words.map not32) fuel hfuel ?_ ?_]
+      · rw [List.range_eq_range']
+        cases (List.range' 0 m.height).foldlM F (m.words.map not32) <;> rfl
+      · subst hF
+        intro j ws hj
+        simp only [Gen.K16b.matrixFlipAll_body2, List.length_map]
+        have hlt : (((m.rowSize - 1 + j * m.rowSize : Nat) : Int) < (m.words.length : Int)) := by
+          simp only [List.length_map] at hj; omega
+        simp only [hlt, decide_true, if_true]
+        rw [updC ws (j * m.rowSize + (m.rowSize - 1)) (fun w => w &&& (1 <<< (m.width % 32) - 1)) _ (by omega) (by omega)
+          (fun w => iand_natCast w _)]
+        have e : ((m.rowSize - 1 + j * m.rowSize : Nat) : Int) + (m.rowSize : Int) = ((m.rowSize - 1 + (j + 1) * m.rowSize : Nat) : Int) := by
+          rw [Nat.succ_mul]; omega
+        cases updWord ws _ _ with
+        | error er => rfl
+        | ok ws' => simp only []; rw [e]
+      · intro j ws hj
+        simp only [Gen.K16b.matrixFlipAll_body2, List.length_map]
+        have hlt : ¬ (((m.rowSize - 1 + j * m.rowSize : Nat) : Int) < (m.words.length : Int)) := by
+          simp only [List.length_map] at hj; omega
+        simp only [hlt, decide_false, Bool.false_eq_true, if_false]
+      · intro i _ hi
+        rw [List.length_map, hlen]
+        have : (i + 1) * m.rowSize ≤ m.height * m.rowSize := Nat.mul_le_mul_right _ (by omega)
+        rw [Nat.succ_mul] at this
+        rw [Nat.mul_comm m.rowSize m.height]; omega
+      · rw [List.length_map, hlen, Nat.zero_add, Nat.mul_comm m.rowSize m.height]; omega
+  · intro i _ hi ws
+    simp only [Gen.K16b.matrixFlipAll_body1]
+    rw [updC ws i (fun w => (wrap 32 (inot (w : Int))).toNat) _ rfl rfl
+      (fun w => (Int.toNat_of_nonneg (wrap_nonneg 32 _)).symm)]
+    cases updWord ws i _ <;> rfl
+
+/-- non-vacuity of `k_matrixFlipAll_eq`: a 33x2 matrix (two words per row, `width%32 ≠ 0`) satisfies the invariant, fuel 3 -/
+example : ∃ m : WMat, InvM m ∧ m.width % 32 ≠ 0 ∧ m.height < 3 :=
+  ⟨⟨33, 2, 2, [0, 0, 0, 0]⟩, ⟨by decide, by decide, by decide, by decide, by decide,
+    fun x y _ _ => by
+      show bitAt (List.replicate 4 0) _ = false
+      unfold bitAt
+      rw [List.getElem?_replicate]; split <;> simp⟩, by decide, by decide⟩
+
+/-- all four fields, for a method that replaces the whole matrix -/
+def expM (r : Res WMat) : Res (Int × Int × Int × List Int) :=
+  r.map (fun m' => ((m'.width : Int), (m'.height : Int), (m'.rowSize : Int), words m'.words))
+
+when_kernel Gzx.Gen.K16b.matrixRotate90 in
+/-- `BitMatrix.Rotate90()` = `WMat.rotate90`: new dimensions and row size, a zeroed slice of `newRowSize*newHeight` words,
+    and for every set cell `(x, y)` (word `y*rowSize + x/32`, bit `x&31`) the bit `y&31` of word
+    `(newHeight-1-x)*newRowSize + y/32` of the new slice; all four fields are replaced -/
+theorem k_matrixRotate90_eq (m : WMat) :
+    Gen.K16b.matrixRotate90 m.width m.height m.rowSize (words m.words) = expM (WMat.rotate90 m) := by
+  simp only [Gen.K16b.matrixRotate90, WMat.rotate90, expM]
+  have hrs : Int.tdiv ((m.height : Int) + 31) 32 = (((m.height + 31) / 32 : Nat) : Int) := by gonorm; omega
+  rw [hrs, mk_words _ ((m.height + 31) / 32 * m.width) (by simp)]
+  simp only [tryR_ok]
+  generalize hF : (fun (nb : List Nat) (y : Nat) => (List.range m.width).foldlM (fun nb x => do
+        let w ← wordAt m.words (y * m.rowSize + x / 32)
+        if ((w >>> (x % 32)) &&& 1) != 0 then
+          updWord nb ((m.width - 1 - x) * ((m.height + 31) / 32) + y / 32) (fun v => v ||| (1 <<< (y % 32)))
+        else pure nb) nb) = F
+  rw [List.range_eq_range', loop_up_fold' words F 0 m.height (List.replicate ((m.height + 31) / 32 * m.width) 0) rfl
+        (by rw [tripUp_one]; omega) (by omega), ofRes_thenR]
+  · cases (List.range' 0 m.height).foldlM F (List.replicate ((m.height + 31) / 32 * m.width) 0) <;> rfl
+  · subst hF
+    intro y _ _ nb
+    simp only [Gen.K16b.matrixRotate90_body1]
+    rw [List.range_eq_range', loop_up_fold' words (fun nb x => do
+        let w ← wordAt m.words (y * m.rowSize + x / 32)
+        if ((w >>> (x % 32)) &&& 1) != 0 then
+          updWord nb ((m.width - 1 - x) * ((m.height + 31) / 32) + y / 32) (fun v => v ||| (1 <<< (y % 32)))
+        else pure nb) 0 m.width nb rfl (by rw [tripUp_one]; omega) (by omega), ofRes_thenC_next]
+    intro x _ hx nb
+    simp only [Gen.K16b.matrixRotate90_body2]
+    rw [idxC m.words (y * m.rowSize + x / 32) _ (by gonorm; omega)]
+    simp only [bind, Except.bind]
+    cases wordAt m.words (y * m.rowSize + x / 32) with
+    | error e => rfl
+    | ok w =>
+      simp only []
+      rw [shr_of_nonneg _ _ (by gonorm; omega)]
+      simp only [tryC_ok]
+      have hsh : ishr (w : Int) (iand (x : Int) 31) = ((w >>> (x % 32) : Nat) : Int) := by
+        gonorm; rw [show (x : Int) % 32 = ((x % 32 : Nat) : Int) by omega, ishr_natCast]
+      have e1 : (1 : Int) = ((1 : Nat) : Int) := rfl
+      rw [hsh, e1, iand_natCast, natCast_bne_zero]
+      cases hb : ((w >>> (x % 32) &&& 1) != 0) with
+      | false => simp [pure, Except.pure, Except.map]
+      | true =>
+        simp only [if_true]
+        rw [shl_of_nonneg _ _ (by gonorm; omega)]
+        simp only [tryC_ok]
+        have h1 : ((m.width : Int) - ((1 : Nat) : Int) - (x : Int)) = ((m.width - 1 - x : Nat) : Int) := by omega
+        rw [h1, ← Int.natCast_mul,
+          updC nb ((m.width - 1 - x) * ((m.height + 31) / 32) + y / 32) (fun v => v ||| 1 <<< (y % 32))]
+        · cases updWord nb _ _ <;> rfl
+        · gonorm; omega
+        · gonorm; omega
+        · intro v; gonorm
+          rw [← e1, bit_natCast _ (y % 32) (by omega) (by omega), ior_natCast]
+
 end Gzx.Obligations.K16bMat
